@@ -18,7 +18,7 @@ LEVEL = 'exploration'
 BUDGET = {'quick': 6000, 'thorough': 60000}
 CAP_S = {'quick': 150, 'thorough': 3000}
 EXHAUSTIVE = {'quick': False, 'thorough': False}
-RULE = ('case = (signature from a grammar over the five parameter kinds in legal order with any subset annotated by draw-independent '
+RULE = ('case = (signature from a grammar over the five parameter kinds (as a function, a bound method or the __call__ of a callable object) in legal order with any subset annotated by draw-independent '
         'hints and any defaults incl. defaults violating their own hint, optional return annotation, body returning / raising) x '
         '(call shape: positional and keyword values, missing, surplus, duplicate, keywords colliding with positional-only names, each '
         'value conforming or violating). The thorough tier additionally enumerates exhaustively all signatures with <= 3 parameters x '
@@ -136,10 +136,21 @@ def build(sig):
         ret = ' -> H_ret'
         ns['RESULT'] = result = fresh(sig['ret'])
     body = {'ok': 'return RESULT', 'bad': 'return BAD', 'raise': 'raise EXC'}[sig.get('body', 'ok')]
-    src = ('def orig(%s)%s:\n    LOG.append(dict(locals()))\n    %s\n'
-           'def twin(%s):\n    return dict(locals())\n') % (', '.join(parts), ret, body, ', '.join(twin_parts))
-    exec(compile(src, '<c04 %s>' % src.splitlines()[0], 'exec'), ns)
-    return beartype(ns['orig']), ns['twin'], log, result, exc, defaults, ns['BAD'], src
+    carrier = sig.get('carrier', 'function')
+    if carrier == 'function':
+        src = ('def orig(%s)%s:\n    LOG.append(dict(locals()))\n    %s\n'
+               'def twin(%s):\n    return dict(locals())\n') % (', '.join(parts), ret, body, ', '.join(twin_parts))
+        exec(compile(src, '<c04 %s>' % src.splitlines()[0], 'exec'), ns)
+        return beartype(ns['orig']), ns['twin'], log, result, exc, defaults, ns['BAD'], src
+    # the same signature as a bound method / as the __call__ of a callable object: beartype(obj.meth), beartype(obj) - the implicit
+    # first parameter is bound already and is no parameter of the callable that is decorated
+    mname = 'meth' if carrier == 'bound' else '__call__'
+    src = ('class Carrier:\n  def %s(%s)%s:\n    LOG.append({k: v for k, v in locals().items() if k != "c04_carrier_self"})\n    %s\n'
+           'def twin(%s):\n    return dict(locals())\n') % (mname, ', '.join(['c04_carrier_self'] + parts), ret, body, ', '.join(twin_parts))
+    exec(compile(src, '<c04 %s>' % src.splitlines()[1], 'exec'), ns)
+    obj = ns['Carrier']()
+    deco = beartype(obj.meth) if carrier == 'bound' else beartype(obj)
+    return deco, ns['twin'], log, result, exc, defaults, ns['BAD'], src.split('\n', 1)[1]
 
 
 def _same_binding(a, b):
@@ -341,6 +352,7 @@ def _call(draw, sig):
 @st.composite
 def _case(draw, tier):
     sig = draw(_sig())
+    sig['carrier'] = draw(st.sampled_from(['function', 'function', 'bound', 'callobj']))
     return {'sig': sig, 'call': draw(_call(sig))}
 
 
